@@ -323,3 +323,124 @@ def constructed(prog, sl, g, fields=FIELDS):
                                      'constructed', opq))
     return entries, opaque
 
+
+
+# ---- loop elements that become literal rows only at the call site ---------------------------------------------------
+def _replace(v, key, new):
+    """v with every sub-value whose canonical form is `key` replaced by `new`"""
+    if not isinstance(v, tuple) or not v:
+        return v
+    if canon(v) == key:
+        return new
+    return tuple(_replace(x, key, new) if isinstance(x, tuple) else x for x in v)
+
+
+def _rows_of(sl, coll):
+    """concrete elements of coll: [(element, guards, opaque)] or None if coll does not decompose into literal rows"""
+    els = elements(sl, coll)
+    if not els or any(fa is not None for _, fa, _, _ in els):
+        return None
+    return [(el, g, o) for el, _, g, o in els]
+
+
+def _adapter_rows(E, e, coll):
+    """a closure run by an iterator adapter / consumer (`rows.iter().filter(p).for_each(body)`) names its element after
+    the underlying collection; the stages between the collection and the closure (filters, filter_maps) decide for which
+    rows the closure runs.  -> [(row, guards, opaque)] from the receiver of that adapter call in the entry function's
+    terms, evaluated row by row; None if the receiver cannot be found / evaluated"""
+    sl = E.slicer
+    key = canon(coll)
+    rows = _rows_of(sl, coll)
+    if rows is None:
+        return None
+    for link in reversed(e.chain):
+        d = link.decl or ''
+        if not d.startswith('std::iter::') or not link.args:
+            continue
+        ridx = 1 if d == 'std::iter::Extend::extend' else 0
+        if ridx >= len(link.args):
+            continue
+        recv = E.subst(sl.operand(link.fn, link.args[ridx]), link.mapping or {})
+        if not any(x[0] == 'array' and canon(x) == key for x in _walk(recv)):
+            continue
+        out = []
+        for row, g0, o0 in rows:
+            els = elements(sl, _replace(recv, key, ('array', (row,))))
+            if any(fa is not None for _, fa, _, _ in els):
+                return None
+            if not els:
+                continue        # no element of the pipeline stems from this row: the closure does not run for it
+            common = [gd for gd in els[0][2] if all(gd in x[2] for x in els[1:])]
+            out.append((row, tuple(g0) + tuple(gd for gd in common if gd not in g0), o0 or any(x[3] for x in els)))
+        return out
+    # the adapter call is not on the chain: the rows are known, what filters them is not
+    return [(row, g, True) for row, g, _ in rows]
+
+
+def _walk(v):
+    from .lib.value import walk
+    return walk(v)
+
+
+def _loop_elements(E, e, vals):
+    """`unwrap(Iterator::next(coll))` sub-values of vals that are the element of a loop around the effect e (or around
+    a call of e's chain) whose collection — in the entry function's terms, i.e. after the caller's arguments have been
+    substituted — decomposes into concrete elements: [(loop element value, [(element, guards, opaque)])].
+    (lib/effects unrolls a loop when its collection is a literal table in the terms of the function that contains the
+    loop; a private helper that is handed the table as a parameter is the same loop seen from one level down.)"""
+    sl = E.slicer
+    calls = list(e.chain) + ([e.call] if e.call is not None else [])
+    out, seen = [], set()
+    for v in vals:
+        for x in _walk(v):
+            if not (x[0] == 'unwrap' and isinstance(x[1], tuple) and x[1] and x[1][0] == 'call' and x[1][1] == IT + 'next'
+                    and len(x[1]) == 4 and len(x[1][2]) == 1):
+                continue
+            key = canon(x)
+            if key in seen:
+                continue
+            seen.add(key)
+            site = x[1][3]
+            if site is None:
+                # lib/iters.elem_of: the parameter of a closure run by an iterator adapter over the collection
+                rows = _adapter_rows(E, e, x[1][2][0]) if strip(x[1][2][0])[0] == 'array' else None
+                if rows is not None:
+                    out.append((x, rows))
+                continue
+            if not (isinstance(site, tuple) and len(site) == 2):
+                continue
+            fpath, hbb = site
+            f = E.prog.fns.get(fpath)
+            if f is None:
+                continue
+            # the `next` call must be the head of a loop whose body contains the effect (a lone `it.next().unwrap()`
+            # names the first element only)
+            lp = [l for l in E.loops(f) if l.header == hbb]
+            if not lp or not any(c.fn.path == fpath and c.bb in lp[0].body and c.bb != hbb for c in calls):
+                continue
+            rows = _rows_of(sl, x[1][2][0])
+            if rows is not None:
+                out.append((x, rows))
+    return out
+
+
+def unrolled(E, e, args, views, depth=0):
+    """the effect e (argument values, guard views) once per row of the literal tables its loop elements range over:
+    [(args, views, opaque)]"""
+    from .lib.value import subst
+    sl = E.slicer
+    if depth > 3:
+        return [(args, views, False)]
+    les = _loop_elements(E, e, list(args) + [v for v, _ in views])
+    if not les:
+        return [(args, views, False)]
+    x, els = les[0]
+    out = []
+    for el, guards, opq in els:
+        m = {'__repl__': [(canon(x), el)]}
+        a2 = tuple(subst(a, m, sl) for a in args)
+        v2 = [(subst(v, m, sl), oc) for v, oc in views]
+        v2.extend(gd for gd in guards if gd not in v2)
+        for a3, v3, o3 in unrolled(E, e, a2, v2, depth + 1):
+            out.append((a3, v3, opq or o3))
+    return out
